@@ -10,7 +10,7 @@ pub struct Catalogue { pub fillers: Vec<String>, pub word: String, pub syn: Vec<
 
 fn run_one(groups: &[RuleGroup], words: &[String], into: &[String], from: &[String]) -> Result<Result<Vec<String>, Error>, String> {
     let (g, w, i, f) = (groups.to_vec(), words.to_vec(), into.to_vec(), from.to_vec());
-    let rec = v::record(2_000_000, false, false, move || asca::run(&g, &w, &i, &f));
+    let rec = crate::util::rec(2_000_000, false, false, move || asca::run(&g, &w, &i, &f));
     rec.result.map_err(|p| panic_msg(&p))
 }
 
@@ -46,6 +46,13 @@ pub fn load_catalogue() -> Catalogue {
 
 pub fn print_counts() {
     let c = load_catalogue();
+    // which error variants the calibrated catalogue reaches (the catalogue is meant to reach every variant the library can return)
+    let mut variants = std::collections::BTreeSet::new();
+    let key = |r: Result<Result<Vec<String>, Error>, String>| match r { Ok(Err(e)) => err_key(&e), Ok(Ok(_)) => "Ok".to_string(), Err(_) => "Panic".to_string() };
+    for s in c.syn.iter().chain(c.late.iter()).chain(c.run.iter()) { variants.insert(key(run_one(&[RuleGroup::from_rules(vec![s.clone()])], &[c.word.clone()], &[], &[]))); }
+    for s in &c.words { variants.insert(key(run_one(&[], &[s.clone()], &[], &[]))); }
+    for (sec, line) in &c.alias { variants.insert(key(if sec == "into" { run_one(&[], &[c.word.clone()], &[line.clone()], &[]) } else { run_one(&[], &[c.word.clone()], &[], &[line.clone()]) })); }
+    println!("VARIANTS {}", json!(variants));
     println!("FAULTS {}", json!({"syn": c.syn.len(), "late": c.late.len(), "run": c.run.len(), "words": c.words.len(), "alias": c.alias.len(), "dropped": c.dropped}));
 }
 
@@ -61,7 +68,7 @@ fn strip_ansi(s: &str) -> String {
 /// formats `e` against the inputs under catch_unwind; returns (formatted text, location named, caret spans ok, detail)
 fn format_checked(e: &Error, groups: &[RuleGroup], words: &[String], into: &[String], from: &[String]) -> Result<String, String> {
     let (e2, g, w, i, f) = (e.clone(), groups.to_vec(), words.to_vec(), into.to_vec(), from.to_vec());
-    let rec = v::record(0, false, false, move || match &e2 {
+    let rec = crate::util::rec(0, false, false, move || match &e2 {
         Error::WordSyn(x) => x.format_word_error(&w), Error::WordRun(x) => x.format_word_error(&w),
         Error::AliasSyn(x) => x.format_alias_error(&i, &f), Error::AliasRun(x) => x.format_alias_error(&i, &f),
         Error::RuleSyn(x) => x.format_rule_error(&g), Error::RuleRun(x) => x.format_rule_error(&g),
